@@ -686,6 +686,14 @@ func (g *G) AddMapEntry(m reflect.Value, listSch *yang.Entry, depth int) bool {
 	if m.MapIndex(k).IsValid() {
 		return false
 	}
+	// wrapper-union keys are pointers: equal key values with different identities would
+	// otherwise coexist, which no YANG list allows
+	ks := model.Render(k)
+	for _, ek := range m.MapKeys() {
+		if model.Render(ek) == ks {
+			return false
+		}
+	}
 	m.SetMapIndex(k, e)
 	return true
 }
@@ -708,6 +716,12 @@ func (g *G) AddOrderedEntry(om reflect.Value, listSch *yang.Entry, depth int) bo
 	}
 	if st.ValueMap.MapIndex(k).IsValid() {
 		return false
+	}
+	ks := model.Render(k)
+	for _, ek := range st.ValueMap.MapKeys() {
+		if model.Render(ek) == ks {
+			return false
+		}
 	}
 	st.ValueMap.SetMapIndex(k, e)
 	st.Keys.Set(reflect.Append(st.Keys, k))
